@@ -446,17 +446,33 @@ def parse_names_ref(names):
     return len(coords), owner
 
 
-def chk_graph_scale(names, coords, scale0, s, s2, fmt):
-    """fmt: 'tuple', 'comma' (field names as "x,y"), 'space' ("x y")"""
+def share_columns(cols, alias):
+    """alias[i] = index of the column whose list object column i uses (alias[i] == i: a list of its own); the values of
+    joined columns must already be equal"""
+    for i, c in enumerate(alias):
+        if c != i:
+            if repr(cols[i]) != repr(cols[c]):
+                raise ValueError("alias %r joins unequal columns in %r" % (alias, cols))
+            cols[i] = cols[c]
+    return cols
+
+
+def chk_graph_scale(names, coords, scale0, s, s2, fmt, alias=None):
+    """fmt: 'tuple', 'comma' (field names as "x,y"), 'space' ("x y"); alias: see share_columns"""
     v = []
     names = tuple(names)
     dim, owner = parse_names_ref(names)
     fn = names if fmt == "tuple" else (", " if fmt == "comma" else " ").join(names)
     ctx = "graph(%r, field_names=%r, scale=%r)" % (coords, fn, scale0)
-    g, ex = exc_name(lambda: graph(copy.deepcopy(coords), field_names=fn, scale=scale0))
+    cols = copy.deepcopy(coords)
+    if alias:
+        share_columns(cols, alias)
+    g, ex = exc_name(lambda: graph(cols, field_names=fn, scale=scale0))
     if ex:
         v.append(("graph/valid-naming-rejected", "%s raised %s" % (ctx, ex)))
         return v
+    # another graph with a coords list of its own over the very same column lists
+    twin, _ = exc_name(lambda: graph(list(cols), field_names=fn, scale=scale0))
     if g.dim != dim or tuple(g.field_names) != names:
         v.append(("graph/dim", "%s: dim = %r, field_names = %r, expected %d coordinates" % (ctx, g.dim, g.field_names, dim)))
     got, ex = exc_name(lambda: g.scale())
@@ -491,6 +507,9 @@ def chk_graph_scale(names, coords, scale0, s, s2, fmt):
                 v.append(("graph.scale/" + fid, "%s%s: column %r = %r, was %r" % (ctx, call, names[i], g.coords[i], col)))
 
     columns(Fraction(s) / Fraction(scale0), ".scale(%r)" % s, False)
+    if twin is not None and (repr([list(c) for c in twin.coords]) != repr(coords) or repr(twin.scale()) != repr(scale0)):
+        v.append(("graph.scale/graph-sharing-columns-changed", "%s.scale(%r): another graph built from the same column lists "
+                  "became %r" % (ctx, s, twin)))
     got, ex = exc_name(lambda: g.scale())
     if ex or not is_num(got) or got != s:
         v.append(("graph.scale/stored-scale-differs", "%s.scale(%r): scale() = %r" % (ctx, s, ex or got)))
@@ -507,14 +526,14 @@ def _mv(b):
     return (b, b * 0.5)
 
 
-def chk_h2g(edges_md, bins, mode, scale_arg, mk, fmt):
+def chk_h2g(edges_md, bins, mode, scale_arg, mk, fmt, alias=None):
     v = []
     dim = len(edges_md)
     names = ("x", "y", "z", "t")[:dim + 1]
     if mk:
         names = names + ("error_" + names[-1],)
     fn = names if fmt == "tuple" else ",".join(names)
-    h = mk_hist(edges_md, bins, 3)
+    h = mk_hist(edges_md, bins, 3, alias)
     before = snap(h)
     cells = ref_cells(edges_md, bins)
     ctx = "hist_to_graph(histogram(%r, %r), get_coordinate=%r, field_names=%r, scale=%r%s)" % (
@@ -562,6 +581,18 @@ def chk_h2g(edges_md, bins, mode, scale_arg, mk, fmt):
         ok = is_num(sc) and sc == scale_arg
     if not ok:
         v.append(("hist_to_graph/scale-arg", "%s: graph scale %r" % (ctx, sc)))
+    # the graph is a structure of its own: no list of the histogram in it, and rescaling it leaves the histogram alone
+    mine = lists_of(g.coords, [])
+    theirs = lists_of([h.bins, h.edges], [])
+    if set(map(id, mine)) & set(map(id, theirs)):
+        v.append(("hist_to_graph/graph-shares-histogram-list", "%s: a column of the graph is a list of the histogram" % ctx))
+    if ok and sc:
+        _, ex = exc_name(lambda: g.scale(sc * 4))
+        if ex is None:
+            hist_unscaled(v, "hist_to_graph/histogram-changed-via-graph", h, before, ctx + "; rescaling the graph")
+            if not all(close(x, Fraction(c) * 4) for x, (_, c, _) in zip(g.coords[dim], cells)):
+                v.append(("hist_to_graph/value-column-not-rescalable", "%s; graph.scale(%r): values %r, cell contents were %r" % (
+                    ctx, sc * 4, g.coords[dim], [c for _, c, _ in cells])))
     return v
 
 
@@ -590,9 +621,9 @@ def cmp_cell(v, base, got_idx, got_c, got_e, ref, ctx):
     return True
 
 
-def chk_iter(edges_md, bins):
+def chk_iter(edges_md, bins, alias=None):
     v = []
-    h = mk_hist(edges_md, bins, 0)
+    h = mk_hist(edges_md, bins, 0, alias)
     before = snap(h)
     cells = ref_cells(edges_md, bins)
     ctx = "histogram(%r, %r)" % (hedges(edges_md), bins)
@@ -738,13 +769,13 @@ def printed_close(x, true):
     return abs(Fraction(x) - Fraction(true)) <= Fraction(500001, 10 ** 12) + abs(Fraction(true)) / 10 ** 15
 
 
-def chk_csv(edges_md, bins, dup, sep, header, via):
+def chk_csv(edges_md, bins, dup, sep, header, via, alias=None):
     """via: 'func' (hist1d_to_csv / hist2d_to_csv), 'func-default' (all defaults: dup True, ',', no header),
     'ToCSV', 'ToCSV-default', 'ToCSV-ctx' (context.output.duplicate_last_bin overrides the element's opposite value),
     'ToCSV-rowend' (row_end=';;', last_row_end='!')"""
     v = []
     dim = len(edges_md)
-    h = mk_hist(edges_md, bins, 2)
+    h = mk_hist(edges_md, bins, 2, alias)
     before = snap(h)
     fname = "hist%dd_to_csv" % dim
     func = hist1d_to_csv if dim == 1 else hist2d_to_csv
@@ -866,15 +897,31 @@ def _sel(k):
     return lambda val: lena.flow.get_context(val).get("k") == k
 
 
-def chk_scale_to(items, target, via, allow):
+def chk_scale_to(items, target, via, allow, alias=None):
     """items: ['h', edges_md, bins, n_out_of_range, 'fresh'|'cached'] or ['g', names, coords, scale];
     target: ['num', s] | ['sel', k] (callable selecting item k) | ['str', k] (context string selecting item k);
-    via: 'scale_to' | 'GroupScale' | 'ScaleTo' (only 'num'; applied to each value, odd items without context)"""
+    via: 'scale_to' | 'GroupScale' | 'ScaleTo' (only 'num'; applied to each value, odd items without context);
+    alias: per item None, a sharing inside the item (see share_hist_lists / share_columns), or how it shares lists with
+    an earlier item j that holds the same values: ['same', j] the very same structure object a second time,
+    ['bins', j] another histogram object over the bins and edges lists of histogram j, ['cols', j] another graph (with a
+    coords list of its own) over the column lists of graph j"""
     v = []
     objs, info = [], []
     for k, it in enumerate(items):
+        al = alias[k] if alias else None
+        link = al if isinstance(al, list) and al and isinstance(al[0], str) else None
+        if link:
+            if repr(items[link[1]][:4]) != repr(it[:4]) or link[1] >= k:
+                raise ValueError("alias %r links unequal items" % (alias,))
+            if link[0] == "same":
+                objs.append(objs[link[1]])
+                info.append(info[link[1]])
+                continue
         if it[0] == "h":
-            h = mk_hist(it[1], it[2], it[3])
+            if link:
+                h = mk_twin(objs[link[1]], it[3])
+            else:
+                h = mk_hist(it[1], it[2], it[3], al)
             cells = ref_cells(it[1], it[2])
             I, mag = ref_integral(cells)
             if it[4] == "cached":
@@ -882,7 +929,13 @@ def chk_scale_to(items, target, via, allow):
             objs.append(h)
             info.append((I if I != 0 else None, cells))
         else:
-            g, ex = exc_name(lambda: graph(copy.deepcopy(it[2]), field_names=tuple(it[1]), scale=it[3]))
+            if link:
+                cols = list(objs[link[1]].coords)
+            else:
+                cols = copy.deepcopy(it[2])
+                if al:
+                    share_columns(cols, al)
+            g, ex = exc_name(lambda: graph(cols, field_names=tuple(it[1]), scale=it[3]))
             if ex:
                 return [("graph/valid-naming-rejected", "graph(%r, field_names=%r, scale=%r) raised %s" % (it[2], tuple(it[1]), it[3], ex))]
             objs.append(g)
@@ -956,9 +1009,29 @@ def chk_scale_to(items, target, via, allow):
     return v
 
 
+# ------------------------------------------------------------------------------------------- shared list objects
+def chk_shared(fn, alias, *args):
+    """The check *fn* on structures in which one list object occurs in several places (*alias*: rows of the bins, axes of
+    the edges, columns of a graph, lists of two structures of a group).  The arguments hold EQUAL values in the joined
+    places, so the reference is the one of the same arguments built from separate lists, which is checked too:
+    what already fails with separate (equal-valued) lists is reported under the ordinary fid, what fails only because
+    the lists are shared under '<function>/shared-lists/<clause>'."""
+    plain = CHECKS[fn](*args)
+    got = CHECKS[fn](*args, alias=alias)
+    known = set(f for f, _ in plain)
+    out = list(plain)
+    for f, m in got:
+        if f not in known:
+            head, _, tail = f.partition("/")
+            out.append((head + "/shared-lists" + ("/" + tail if tail else ""),
+                        "%s [one list object in several places: %r; passes when built from separate equal lists]" % (m, alias)))
+    return out
+
+
 CHECKS = {"scale": chk_scale, "add": chk_add, "add_unequal": chk_add_unequal, "nevents": chk_nevents,
           "graph_scale": chk_graph_scale, "h2g": chk_h2g, "iter": chk_iter, "iter_ranges": chk_iter_ranges,
-          "iter_coord": chk_iter_coord, "csv": chk_csv, "tocsv_flow": chk_tocsv_flow, "scale_to": chk_scale_to}
+          "iter_coord": chk_iter_coord, "csv": chk_csv, "tocsv_flow": chk_tocsv_flow, "scale_to": chk_scale_to,
+          "shared": chk_shared}
 
 
 def make_replayer(fn):
@@ -1114,6 +1187,63 @@ def graph_coords(ncols, npts, flavour):
     if flavour == "int":
         return [[10 * (c + 1) + p for p in range(npts)] for c in range(ncols)]
     return [[(c + 1) * 1.5 - p * 0.25 if (c + p) % 3 else -(c + 2) * (p + 1) for p in range(npts)] for c in range(ncols)]
+
+
+def hist_sharings(shape):
+    """the ways one list object occurs in several places of a histogram of this shape: two rows bins[i], bins[j]; all
+    rows one list; (3 dimensions) two inner rows bins[i][j], bins[k][l]; all inner rows one list; all inner rows and all
+    planes one list each (the [[[0]*n]*m]*k pattern); two axes with equally many bins sharing their edges list, alone and
+    together with the first sharing of bins"""
+    dim, out = len(shape), []
+    if dim >= 2:
+        rows = list(range(shape[0]))
+        for i, j in itertools.combinations(rows, 2):
+            out.append({"bins": [[[i], [j]]]})
+        if len(rows) >= 3:
+            out.append({"bins": [[[0], [j]] for j in rows[1:]]})
+    if dim == 3:
+        inner = [[i, j] for i in range(shape[0]) for j in range(shape[1])]
+        for a, b in itertools.combinations(inner, 2):
+            out.append({"bins": [[a, b]]})
+        if len(inner) >= 3:
+            out.append({"bins": [[inner[0], b] for b in inner[1:]]})
+        if shape[0] >= 2 and shape[1] >= 2:
+            out.append({"bins": [[[0, 0], [0, j]] for j in range(1, shape[1])] + [[[0], [i]] for i in range(1, shape[0])]})
+    first = out[0] if out else None
+    for d, e in itertools.combinations(range(dim), 2):
+        if shape[d] == shape[e]:
+            out.append({"edges": [[d, e]]})
+            if first:
+                out.append({"bins": first["bins"], "edges": [[d, e]]})
+    return out
+
+
+def column_sharings(ncols, every_partition):
+    """alias vectors for a graph with ncols columns: every pair of columns one list, all columns one list; with
+    every_partition every partition of the columns into groups sharing one list"""
+    out = []
+    if every_partition:
+        def rec(vec):
+            if len(vec) == ncols:
+                if vec != list(range(ncols)):
+                    out.append(list(vec))
+                return
+            i = len(vec)
+            for c in sorted(set(vec)) + [i]:
+                rec(vec + [c])
+        rec([])
+        return out
+    for i, j in itertools.combinations(range(ncols), 2):
+        vec = list(range(ncols))
+        vec[j] = i
+        out.append(vec)
+    if ncols >= 3:
+        out.append([0] * ncols)
+    return out
+
+
+def equal_columns(coords, alias):
+    return [list(coords[c]) for c in alias]
 
 
 # ------------------------------------------------------------------------------------------------------ body
@@ -1448,6 +1578,141 @@ def body(R):
         target = ["num", rand_scale(rng)] if not ok or rng.random() < 0.6 else [rng.choice(["sel", "str"]), rng.choice(ok)]
         via = rng.choice(["scale_to", "GroupScale", "ScaleTo"] if target[0] == "num" else ["scale_to", "GroupScale"])
         run_case(R, "scale_to", [items, target, via, via != "ScaleTo" and rng.random() < 0.5])
+
+    shared_scopes(R, namings, kinds, scalable)
+
+
+def shared_scopes(R, namings, kinds, scalable):
+    """structures in which one list object occurs in several places (and, inside every case, the same values in
+    separate lists): every operation must treat every cell / column once and leave everything else alone"""
+    rng = R.rng
+    T = R.thorough
+    maxb = 4 if T else 3
+    rot = itertools.count()
+
+    def pick(seq):
+        return seq[next(rot) % len(seq)]
+
+    # ---- histograms
+    svals = [(2, -3), (0.5, 7.25), (-3, 1), (10, 0.5)]
+    nvals = [(10, False, "default"), (-2.5, True, "kw"), (3, True, "pos"), (0.5, False, "kw")]
+    wmodes = [(1, "pos"), (2, "kw"), (-0.5, "pos"), (1, "default"), (1, "self"), (-2.5, "self")]
+    h2gs = [("left", True, False), ("middle", True, True), ("right", 7, False), ("left", None, True)]
+    csvs = [(True, ",", None, "func"), (False, ";", "a header", "ToCSV"), (True, ";", None, "ToCSV-ctx"),
+            (False, ",", None, "func"), (True, ",", "a header", "ToCSV-rowend")]
+    hshapes = list(shapes(maxb, (2, 3))) if T else list(shapes(3, (2,))) + list(shapes(2, (3,))) + [[3, 2, 1], [2, 3, 2], [1, 3, 3]]
+    R.scope("histogram operations on shared lists",
+            "%s; every sharing of one list object inside the histogram: "
+            "any two rows bins[i] / bins[j], all rows, (3 dimensions) any two inner rows bins[i][j] / bins[k][l], all inner "
+            "rows, all inner rows and all planes (the [[[0]*n]*m]*k pattern), two axes sharing one edges list (alone and "
+            "with shared rows); tagged int / float contents%s; operations: scale (fresh and cached, two targets), set_nevents, "
+            "add with the sharing in a, in b, in both, and with b a second histogram object over a's very lists (weights "
+            "and call styles rotating, incl. a.add(a)), hist_to_graph, the three iterators, CSV (2 dimensions); options "
+            "rotate with the case number; every case also runs on the same values in separate lists"
+            % ("all shapes with 1..4 bins per axis in 2..3 dimensions" if T else "all 2-dimensional shapes with 1..3 bins per axis, all "
+               "3-dimensional ones with 1..2 bins per axis and 3x2x1, 2x3x2, 1x3x3", "" if T else " alternating"), True)
+    for shp in hshapes:
+        for al in hist_sharings(shp):
+            for pn in (("int", "float") if T else (("int", "float")[next(rot) % 2],)):
+                em, bins = equalise(ex_edges(shp), pattern(pn, shp), al)
+                other = pattern("mixed" if pn == "int" else "int", shp)
+                _, other_eq = equalise(ex_edges(shp), other, al)
+                for pre in ("fresh", "cached"):
+                    s1, s2 = pick(svals)
+                    run_case(R, "shared", ["scale", al, em, bins, pick([0, 3, 1.5]), s1, s2, pre])
+                nv, inc, style = pick(nvals)
+                run_case(R, "shared", ["nevents", al, em, bins, pick([0, 3, 1.5]), nv, inc, style])
+                w, mode = pick(wmodes)
+                run_case(R, "shared", ["add", {"a": al}, em, bins, 2, other, 1.5, w, mode])
+                w, mode = pick(wmodes[:4])
+                run_case(R, "shared", ["add", {"b": al}, em, other, 2, bins, 1.5, w, mode])
+                w, mode = pick(wmodes[:4])
+                run_case(R, "shared", ["add", {"a": al, "b": al}, em, bins, 2, other_eq, 1.5, w, mode])
+                w, mode = pick(wmodes[:4])
+                run_case(R, "shared", ["add", {"a": al, "share": True}, em, bins, 2, bins, 1.5, w, mode])
+                mode, sa, mk = pick(h2gs)
+                run_case(R, "shared", ["h2g", al, em, bins, mode, sa, mk, "tuple"])
+                run_case(R, "shared", ["iter", al, em, bins])
+                if len(shp) == 2:
+                    dup, sep, header, via = pick(csvs)
+                    run_case(R, "shared", ["csv", al, em, bins, dup, sep, header, via])
+    R.scope("histogram.add of two histogram objects over the same lists",
+            "all shapes with 1..%d bins per axis in 1..3 dimensions (no sharing inside the histogram): b is a second "
+            "histogram object over the bins and edges lists of a; weights 1, 2, -0.5, positional / keyword / default" % maxb, True)
+    for shp in shapes(maxb):
+        for pn in ("int", "float"):
+            bins = pattern(pn, shp)
+            for w, mode in wmodes[:4]:
+                run_case(R, "shared", ["add", {"share": True}, ex_edges(shp), bins, 2, bins, 1.5, w, mode])
+
+    # ---- graphs
+    std = [n for n in namings if tuple(n[:parse_names_ref(tuple(n))[0]]) in (("x",), ("x", "y"), ("x", "y", "z"), ("x", "xy"))]
+    if not T:
+        std = [n for k, n in enumerate(std) if len(n) <= 4 or (len(n) == 5 and k % 3 == 0) or k % 11 == 0]
+    spairs = [(2, 5, -1), (-4, 0.5, 3), (0.5, -3, 4), (3, 7.5, 2)]
+    R.scope("graph.scale on shared columns",
+            "%d valid namings over the coordinate tuples (x), (x, y), (x, y, z), (x, xy) with 0..3 error fields%s; for each, "
+            "every pair of columns being one list object and all columns being one list%s (e.g. graph([xs, xs]), the same "
+            "list for error_y_low and error_y_high, a coordinate shared with an error of another one); %s points, tagged int "
+            "/ float values alternating, (scale, target, second target) rotating over %r; every case also runs on the same "
+            "values in separate lists" % (
+                len(std), "" if T else " (all with <= 4 columns, a third of those with 5, every 11th otherwise)",
+                "; for <= 5 columns every partition of the columns into groups sharing one list" if T else "",
+                "1 and 3" if T else "2", spairs), True)
+    for names in std:
+        if len(names) < 2:
+            continue
+        for al in column_sharings(len(names), T and len(names) <= 5):
+            for npt in ((1, 3) if T else (2,)):
+                coords = equal_columns(graph_coords(len(names), npt, pick(["int", "float"])), al)
+                sc, s1, s2 = pick(spairs)
+                run_case(R, "shared", ["graph_scale", al, names, coords, sc, s1, s2, "tuple"])
+    n = 4000 if T else 400
+    R.scope("graph.scale on shared columns (random)", "%d random graphs: random valid naming (all %d), 1..4 points, a random "
+            "assignment of the columns to shared lists, random dyadic values, random non-zero scale and targets" % (n, len(namings)), False)
+    for _ in range(n):
+        names = rng.choice(namings)
+        al = []
+        for i in range(len(names)):
+            al.append(rng.choice(sorted(set(al)) + [i, i]))
+        npt = rng.randint(1, 4)
+        coords = equal_columns([[rand_content(rng, "dyadic") for _ in range(npt)] for _ in names], al)
+        run_case(R, "shared", ["graph_scale", al, names, coords, rand_scale(rng), rand_scale(rng), rand_scale(rng), "tuple"])
+
+    # ---- groups
+    inner = {1: {"bins": [[[0], [1]]]}, 2: {"bins": [[[0, 0], [0, 1]]]}, 4: [0, 1, 2, 2], 5: [0, 0, 2, 2]}
+    R.scope("scale_to / GroupScale / ScaleTo on groups sharing lists",
+            "groups of 2..3 structures out of the 7 kinds above in which one structure occurs a second time (the very same "
+            "object), or a second histogram object over the same bins and edges lists, or a second graph over the same "
+            "column lists; first / last / both positions around one other structure; also single structures with shared "
+            "rows / columns inside; numeric targets {3, -0.5} and the scale of a selected item; allow_zero_scale both; every "
+            "case also runs on the same values in separate lists", True)
+    for k, kind in enumerate(kinds):
+        links = [["same", 0], ["bins", 0] if kind[0] == "h" else ["cols", 0]]
+        groups = []
+        for link in links:
+            groups.append(([kind, kind], [None, link]))
+            for o in (0, 4) if T else (pick([0, 4]),):
+                groups.append(([kind, kinds[o], kind], [None, None, link]))
+                groups.append(([kinds[o], kind, kind], [None, None, [link[0], 1]]))
+        if k in inner:
+            e_items = list(kind)
+            if kind[0] == "h":
+                e_items[1], e_items[2] = equalise(kind[1], kind[2], inner[k])
+            else:
+                e_items[2] = equal_columns(kind[2], inner[k])
+            groups.append(([e_items], [inner[k]]))
+            groups.append(([e_items, kinds[0], e_items], [inner[k], None, ["same", 0]]))
+            groups.append(([e_items, e_items], [inner[k], ["bins", 0] if kind[0] == "h" else ["cols", 0]]))
+        for items, al in groups:
+            targets = [["num", 3], ["num", -0.5]]
+            if k in scalable:
+                targets.append(["sel", len(items) - 1])
+                targets.append(["str", 0])
+            for target in targets:
+                for via in ("scale_to", "GroupScale") + (("ScaleTo",) if target[0] == "num" else ()):
+                    for allow in ((False, True) if via != "ScaleTo" else (False,)):
+                        run_case(R, "shared", ["scale_to", al, items, target, via, allow])
 
 
 if __name__ == "__main__":
